@@ -3,6 +3,8 @@ import EraVerif.Proofs.MuxPermitR
 import EraVerif.Proofs.MuxReader
 import EraVerif.Proofs.MuxTxS
 import EraVerif.Proofs.MuxWire
+import EraVerif.Proofs.MuxChan
+import EraVerif.Proofs.MuxCancel
 
 /-!
 # C14 — Multiplexed streams are isolated, ordered and flow-controlled
@@ -291,15 +293,108 @@ theorem sender_frames_bounded {s : State} (h : Reachable s) (f : OFrame) (hf : f
     f.data ≠ [] ∧ f.data.length ≤ s.cfg.wfs :=
   (TInv_reachable h).fr f hf hk
 
+/-! ## the write path under back-pressure, and the cancellation of a single `write_all` / `flush`
+
+`write_all(ctx, buf)` and `flush(ctx)` have one await: `write_send.reserve_or_disconnected(ctx)` inside `send_data`, the
+reservation of the one slot of the channel to the writer task. It blocks while the slot is occupied (the writer task is
+stuck on a transport that does not take bytes: the peer's reader has stalled). If the `ctx` of the call is cancelled
+there, the call returns `Canceled` (`cancelWrite`, `cancelFlush`), and the sub-stream stays usable. The theorems below
+say that nothing `write_all` had accepted is lost by that, at any point, for every interleaving.
+
+Vocabulary: `s.wire` = the frames written to the transport, in order (the first `s.flushed` are visible to the peer);
+`s.wcur`, `s.chan` = the command in the hands of the writer task / in the channel slot; `(s.st k).wbuf` = the stream's
+write buffer; `(s.st k).calls` = (ghost) the finished `write_all` calls of the current transient stream: their data, how
+many bytes of it had been copied into the buffer (`took`), the result; `ackedOf calls` = the concatenation, call by call,
+of `data.take took`; `pendDone` = what the call in flight has copied so far; `sessPayload` = the concatenated DATA payload
+behind the last OPEN / CLOSE in a stream's frame sequence. -/
+
+/-- **The channel and the writer task neither lose nor reorder.** What has been written to the transport, then the frame
+the writer task is holding, then the frame in the channel slot, are exactly the frames whose `send` / `reserve` completed,
+in that order; what the peer can see is a prefix of what has been written. -/
+theorem writer_channel_fifo {s : State} (h : Reachable s) :
+    s.wire ++ cmdFrames s.wcur ++ cmdFrames s.chan = s.out ∧ s.flushed ≤ s.wire.length :=
+  ⟨(CInv_reachable h).fifo, (CInv_reachable h).fl⟩
+
+/-- **Acknowledged data is delivered (or the multiplexer has failed).** In every reachable state with the multiplexer
+alive, for every stream `k`: the payload of its current transient stream that is on the transport or on its way there (in
+the writer's hands, in the channel slot) — which is what the peer's matching sub-stream has read or will read, in this
+order — followed by the write buffer, is exactly: for every finished `write_all` in call order, the whole data if it
+returned `Ok` and the prefix `data.take took` if it was cancelled, followed by what the call in flight has copied.
+For a cancelled call the prefix is determined (`CallOk`): `took < data.length`, and `fill0 + took = (j + 1) *
+write_frame_size` where `fill0` is the fill level of the buffer when the call started and `j` the number of frames the
+call itself had sent — the call stopped at a `send_data` with a full buffer, and that buffer is still there.
+When the stream's task is about to send CLOSE (phase `closing`) everything accepted is ahead of it on the wire. -/
+theorem acked_data_delivered_or_error {s : State} (h : Reachable s) (k : Key) (ha : s.dead = none) :
+    sessPayload (projOut k (s.wire ++ cmdFrames s.wcur ++ cmdFrames s.chan)) ++ (s.st k).wbuf =
+      ackedOf (s.st k).calls ++ pendDone (s.st k) ∧
+    (∀ c ∈ (s.st k).calls, CallOk s.cfg.wfs c) ∧
+    ((s.st k).mphase = .closing →
+      sessPayload (projOut k (s.wire ++ cmdFrames s.wcur ++ cmdFrames s.chan)) = ackedOf (s.st k).calls) := by
+  have hA := (AInv_reachable h).st k
+  have hT := TInv_reachable h
+  rw [(CInv_reachable h).fifo, sessPayload_of_txRun (hT.wf k)]
+  have hlog := (hT.st k).log (by rw [ha]; rfl)
+  have hkey : (s.st k).sent ++ (s.st k).wbuf = ackedOf (s.st k).calls ++ pendDone (s.st k) := by
+    have := hA.log
+    rw [hlog] at this
+    exact List.append_cancel_right this
+  refine ⟨hkey, hA.calls, ?_⟩
+  intro hm
+  have hne : (s.st k).mphase ≠ .waitWrite := by rw [hm]; decide
+  have hb := (hT.st k).cl hne
+  have hp := no_write_in_flight (LInv_reachable h) k hne
+  rw [hb, List.append_nil] at hkey
+  rw [hkey]; simp [pendDone, hp]
+
+/-- **Cancelling is safe.** Cancel the context of the `write_all` or `flush` in flight on stream `k` (at its await, in any
+reachable state, whatever else is going on). Then (1) nothing that is sent, in flight or buffered changes, on this or any
+other stream; (2) the call is over and the stream is still held by the application with no call in flight, so any further
+`write_all` / `flush` on it is accepted; (3) what the stream has accepted so far is exactly its payload on the wire plus
+its buffer; and (4) every continuation keeps extending this very byte sequence: in any later state of the same transient
+stream (no CLOSE / OPEN of `k` in between), with the multiplexer alive, the payload on the wire plus the buffer still
+starts with everything accepted up to the cancellation. -/
+theorem cancel_is_safe {s s' : State} (h : Reachable s) (k : Key) (ha : s.dead = none)
+    (hc : step? s (.cancelWrite k) = some s' ∨ step? s (.cancelFlush k) = some s') :
+    (s'.out = s.out ∧ s'.wire = s.wire ∧ s'.chan = s.chan ∧ s'.wcur = s.wcur ∧ s'.flushed = s.flushed ∧
+      (s'.st k).sent = (s.st k).sent ∧ (s'.st k).wbuf = (s.st k).wbuf ∧ ∀ k', k' ≠ k → s'.st k' = s.st k') ∧
+    ((s'.st k).pendW = none ∧ (s'.st k).pendF = none ∧ (s'.st k).writeHeld = true ∧
+      ∀ slot r, s'.slots slot = .held k r true →
+        ∀ bytes, (step? s' (.appWrite slot bytes)).isSome = true ∧ (step? s' (.appFlush slot)).isSome = true) ∧
+    sessPayload (projOut k s'.out) ++ (s'.st k).wbuf = ackedOf (s'.st k).calls ∧
+    (∀ es s'', run? s' es = some s'' → s''.dead = none → Event.closeFrame k ∉ es → Event.sendOpen k ∉ es →
+      ackedOf (s'.st k).calls <+: sessPayload (projOut k s''.out) ++ (s''.st k).wbuf) := by
+  have hA := AInv_reachable h
+  have hL := LInv_reachable h
+  have hf := cancel_frame hA hc
+  have hheld := cancel_held hL hA hc
+  have hr' : Reachable s' := by
+    rcases hc with hc | hc <;> exact reachable_step h hc
+  have ha' : s'.dead = none := by rw [hf.dead]; exact ha
+  have key : ∀ {t : State}, Reachable t → t.dead = none →
+      sessPayload (projOut k t.out) ++ (t.st k).wbuf = ackedOf (t.st k).calls ++ pendDone (t.st k) := by
+    intro t ht hta
+    have := (acked_data_delivered_or_error ht k hta).1
+    rwa [(CInv_reachable ht).fifo] at this
+  refine ⟨⟨hf.out, hf.wire, hf.chan, hf.wcur, hf.flushed, hf.sent, hf.wbuf, hf.other⟩,
+    ⟨hf.idle.1, hf.idle.2, by rw [hf.held]; exact hheld, ?_⟩, ?_, ?_⟩
+  · intro slot r hs bytes
+    simp [step?, stepAppWrite, stepAppFlush, hs, hf.idle.1, hf.idle.2]
+  · have := key hr' ha'
+    simpa [pendDone, hf.idle.1] using this
+  · intro es s'' hrun ha'' h1 h2
+    obtain ⟨l, hl⟩ := run_calls_mono k es s' s'' hrun h1 h2
+    rw [key (run?_reachable hr' es s'' hrun) ha'', hl, ackedOf_append, List.append_assoc]
+    exact List.prefix_append _ _
+
 /-! ## the tie to the correspondence run -/
 
 /-- The deterministic scheduler the model driver uses between two operations (`settle`, whatever scheduling advice `prio`
 it is given) only applies `step?`: every
 state whose observation is compared with the real `Mux` is a reachable state of the LTS the theorems above quantify
 over. -/
-theorem scheduler_stays_reachable (prio : List Key) (n : Nat) {s : State} (h : Reachable s) :
-    Reachable (settle prio n s).1 :=
-  settle_reachable prio n h
+theorem scheduler_stays_reachable (first : List Event) (prio : List Key) (n : Nat) {s : State} (h : Reachable s) :
+    Reachable (settle first prio n s).1 :=
+  settle_reachable first prio n h
 
 /-! ## non-vacuity: a concrete run (handshake, peer OPEN, accept, DATA split into pieces, partial read, CLOSE, EOS) -/
 
@@ -307,7 +402,7 @@ theorem scheduler_stays_reachable (prio : List Key) (n : Nat) {s : State} (h : R
 def demoInit : State := State.init ⟨4, 16, 4, 5⟩ [(0, 2)] [(7, 2)] [(7, 5)] [(0, 1)]
 def demoKey : Key := ⟨false, 0⟩
 def demoEvents : List Event :=
-  [.closeData demoKey, .closeFrame demoKey, .doFlush,
+  [.closeData demoKey, .closeFrame demoKey, .wtake, .wdo, .doFlush, .wtake, .wdo,
    .wireIn ⟨mkHdr .open true 0, []⟩, .wireIn ⟨mkHdr .data true 0, [1, 2, 3, 4, 5, 6]⟩, .wireIn ⟨mkHdr .close true 0, []⟩,
    .recvOpenStart demoKey, .pump, .pump, .discard demoKey, .joinedA demoKey, .push demoKey,
    .appOpen 1 false 0, .pop false 0, .sendOpen demoKey,
@@ -323,6 +418,47 @@ example : (run? demoInit demoEvents).map (fun s =>
 example : ∃ s, Reachable s ∧ (s.st demoKey).closeRecv = true ∧ (s.st demoKey).rphase ≠ .discard := by
   refine ⟨(run? demoInit demoEvents).get (by decide), ⟨⟨4, 16, 4, 5⟩, [(0, 2)], [(7, 2)], [(7, 5)], [(0, 1)], demoEvents, ?_⟩, by decide, by decide⟩
   exact (Option.some_get _).symm
+
+
+/-! ### non-vacuity of the cancellation theorems: a transport that stops taking bytes, a `write_all` and a `flush` that
+block on the channel slot and are cancelled, further writes on the same stream, CLOSE -/
+
+/-- up to the hand-over of the accept stream to slot 1 (its OPEN is in the channel slot); then the transport stalls -/
+def demoOpen : List Event :=
+  [.closeData demoKey, .closeFrame demoKey, .wtake, .wdo, .doFlush, .wtake, .wdo,
+   .wireIn ⟨mkHdr .open true 0, []⟩, .recvOpenStart demoKey, .pump, .pump, .discard demoKey, .joinedA demoKey, .push demoKey,
+   .appOpen 1 false 0, .pop false 0, .sendOpen demoKey,
+   .txWindow (some 0), .wtake]
+/-- `write_all([1..7])` returns Ok (one frame goes into the slot, `[6,7]` stay buffered); `write_all([8..11])` copies
+`[8,9,10]`, then blocks on the slot with a full buffer -/
+def demoBlock : List Event :=
+  [.appWrite 1 [1, 2, 3, 4, 5, 6, 7], .writeStep demoKey, .writeStep demoKey, .writeStep demoKey, .writeStep demoKey,
+   .appWrite 1 [8, 9, 10, 11], .writeStep demoKey]
+/-- both the blocked `write_all` and a blocked `flush` are cancelled; the transport resumes; `write_all([12])`; drop -/
+def demoCancel : List Event :=
+  [.cancelWrite demoKey, .appFlush 1, .cancelFlush demoKey,
+   .txWindow none, .wdo, .wtake, .wdo,
+   .appWrite 1 [12], .writeStep demoKey, .writeStep demoKey, .writeStep demoKey,
+   .appDrop 1 false true, .wtake, .wdo, .closeData demoKey, .wtake, .wdo]
+
+/-- the blocked state: the step of `write_all` is not enabled, its cancellation is -/
+example : (run? demoInit (demoOpen ++ demoBlock)).map (fun s =>
+    ((step? s (.writeStep demoKey)).isSome, (step? s (.cancelWrite demoKey)).isSome, s.chan, s.wcur,
+      (s.st demoKey).wbuf)) =
+    some (false, true, some (.frame ⟨false, 0, .data, [1, 2, 3, 4, 5]⟩), some (.frame ⟨false, 0, .open, []⟩),
+      [6, 7, 8, 9, 10]) := by decide
+
+/-- after the cancellations and the last write, about to send CLOSE: the calls, and everything accepted is on the wire -/
+example : (run? demoInit (demoOpen ++ demoBlock ++ demoCancel)).map (fun s =>
+    ((s.st demoKey).calls, (s.st demoKey).mphase, sessPayload (projOut demoKey s.wire), s.doneLog)) =
+    some ([⟨[1, 2, 3, 4, 5, 6, 7], 7, 0, .ok⟩, ⟨[8, 9, 10, 11], 3, 2, .canceled⟩, ⟨[12], 1, 5, .ok⟩], .closing,
+      [1, 2, 3, 4, 5, 6, 7, 8, 9, 10, 12],
+      [.opened 1 false 0, .wrote 1 true, .canceled 1, .canceled 1, .wrote 1 true]) := by decide
+
+/-- the hypotheses of `cancel_is_safe` are met in a reachable state -/
+example : ∃ s, Reachable s ∧ s.dead = none ∧ (step? s (.cancelWrite demoKey)).isSome = true := by
+  refine ⟨(run? demoInit (demoOpen ++ demoBlock)).get (by decide),
+    ⟨⟨4, 16, 4, 5⟩, [(0, 2)], [(7, 2)], [(7, 5)], [(0, 1)], demoOpen ++ demoBlock, (Option.some_get _).symm⟩, by decide, by decide⟩
 
 example : stream_ids_partition [(0, 4), (1, 3), (2, 5)] [(0, 9), (1, 2)] =
     stream_ids_partition [(0, 4), (1, 3), (2, 5)] [(0, 9), (1, 2)] := rfl
